@@ -227,6 +227,28 @@ func registerCodecs() {
 		}
 		return Sc{hasPrefix(a[0].(Str), p.Conc)}
 	}))
+	indexByte := func(last bool) func(e *Engine, s *State, a []Value, at ssa.Instruction, sf *ssa.Function) Value {
+		return func(e *Engine, s *State, a []Value, at ssa.Instruction, sf *ssa.Function) Value {
+			arr, ln, max, ok := a[0].(Str).asBytes()
+			if !ok {
+				panic(engErr("strings.IndexByte on an opaque string; the harness must provide a byte string"))
+			}
+			c := a[1].(Sc).T
+			res := BVu(^uint64(0), 64) // -1
+			if last {
+				for i := 0; i < max; i++ {
+					res = Ite(And(Ult(Idx(i), ln), Eq(Select(arr, Idx(i)), c)), Idx(i), res)
+				}
+			} else {
+				for i := max - 1; i >= 0; i-- {
+					res = Ite(And(Ult(Idx(i), ln), Eq(Select(arr, Idx(i)), c)), Idx(i), res)
+				}
+			}
+			return Sc{res}
+		}
+	}
+	add("strings.LastIndexByte", simple(indexByte(true)))
+	add("strings.IndexByte", simple(indexByte(false)))
 	add("strings.Compare", simple(func(e *Engine, s *State, a []Value, at ssa.Instruction, sf *ssa.Function) Value {
 		a1, l1, m1, ok1 := a[0].(Str).asBytes()
 		a2, l2, m2, ok2 := a[1].(Str).asBytes()
